@@ -229,9 +229,9 @@ func runC11(c *wk.Ctx) {
 	c.Floor("callsignal", 300)
 	c.Floor("concurrent_rounds", 50)
 	ctx := context.Background()
-	n := c.N(400, 12000)
+	n := c.N(400, 36000)
 	if c.Variant != "plain" {
-		n = c.N(120, 3000)
+		n = c.N(120, 9000)
 	}
 	c.Cases(n, func(idx int64, r *wk.Rand) {
 		r0 := *r
